@@ -5,6 +5,7 @@ import (
 	"encoding/gob"
 	"fmt"
 	"path/filepath"
+	"sort"
 	"sync"
 
 	"github.com/pkg/errors"
@@ -342,15 +343,18 @@ func (sc *SubCache[EntityT, ExcerptT, CacheT]) AllIds() []entity.Id {
 
 // allIds is AllIds for callers that already hold the lock
 func (sc *SubCache[EntityT, ExcerptT, CacheT]) allIds() []entity.Id {
-	result := make([]entity.Id, len(sc.excerpts))
+	ids := make([]entity.Id, len(sc.excerpts))
 
 	i := 0
 	for _, excerpt := range sc.excerpts {
-		result[i] = excerpt.Id()
+		ids[i] = excerpt.Id()
 		i++
 	}
 
-	return result
+	// a map is iterated in a different order on every call: callers page through this list across calls
+	sort.Slice(ids, func(i, j int) bool { return ids[i] < ids[j] })
+
+	return ids
 }
 
 // Resolve retrieve an entity matching the exact given id
